@@ -127,6 +127,15 @@ hlim::Node_Rewire::RewireOperation leftShiftRewireOp(size_t width, size_t amount
 template<typename T, hlim::Node_Shift::dir direction>
 T shift(const T &operand, size_t amount, hlim::Node_Shift::fill fill) {
 	const size_t width = operand.size();
+
+	// The rewire ops below assume amount <= width: a larger amount would produce a result wider than the operand
+	// (the shift is documented to retain the size) and, for rotations, read bits beyond the operand.
+	if (fill == hlim::Node_Shift::fill::rotate)
+		amount = width ? amount % width : 0;
+	else
+		amount = std::min(amount, width);
+	if (width == 0 && fill == hlim::Node_Shift::fill::last)
+		fill = hlim::Node_Shift::fill::zero; // nothing to replicate
 	
 	hlim::Node_Rewire *node = DesignScope::createNode<hlim::Node_Rewire>(1);
 	node->recordStackTrace();
